@@ -1,6 +1,13 @@
 //! Layer L: in-process exploration of the hdwallet library (linked by path from /repo) against the reference model.
 use explore::Ctx;
 mod c01;
+mod c02;
+mod c04;
+mod c05;
+mod c10;
+mod c03;
+mod c14;
+mod mcutil;
 
 fn main() {
     explore::install_panic_hook();
@@ -10,9 +17,15 @@ fn main() {
         match refmodel::selftest::run() { Ok(n) => { println!("reference self-test: {n} known answers ok"); return; } Err(e) => { eprintln!("ENGINE-ERROR reference self-test failed: {e}"); std::process::exit(2); } }
     }
     if let Err(e) = refmodel::selftest::run() { eprintln!("ENGINE-ERROR reference self-test failed: {e}"); std::process::exit(2); }
-    let ctx = Ctx::from_args(&id, "L", &args[1..]);
+    let ctx: &'static Ctx = Box::leak(Box::new(Ctx::from_args(&id, "L", &args[1..])));
     match id.as_str() {
-        "C01" => c01::run(&ctx),
+        "C01" => c01::run(ctx),
+        "C02" => c02::run(ctx),
+        "C03" => c03::run(ctx),
+        "C04" => c04::run(ctx),
+        "C05" => c05::run(ctx),
+        "C10" => c10::run(ctx),
+        "C14" => c14::run(ctx),
         _ => { eprintln!("unknown property {id}"); std::process::exit(2); }
     }
     ctx.finish_and_exit();
